@@ -111,4 +111,13 @@ example :
     let res := l.stepRecord env ⟨3, IN_MOVE_SELF, 0#32, 0, []⟩
     res.out.errors = [] ∧ res.out.events = [{ name := [102], op := Rename }] ∧ res.lib.pathT = [] := by decide
 
+/-- a read that returns nothing (`io.EOF`) or less than one header (short read) puts exactly one value on
+Errors, delivers no event and leaves the tables as they were: the reader goes on -/
+theorem empty_or_short_read_inert (l : Lib) (env : Env) (bs : List Nat) (h : bs.length < 16) :
+    (l.stepRead env bs).1 = l ∧ (l.stepRead env bs).2.2.1.events = [] ∧ (l.stepRead env bs).2.2.1.errors.length = 1 := by
+  unfold Lib.stepRead
+  by_cases h0 : bs.length = 0
+  · simp [h0]
+  · simp [h0, h]
+
 end C10
